@@ -38,9 +38,10 @@ theorem cutSlash_eq {l a b : Path} (h : cutSlash l = some (a, b)) : l = a ++ '/'
         · exact e h3.symm
         · exact h2 h3
 
-/-- the selection, given what `NamespaceByStoragePath` returned -/
+/-- the selection, given what `NamespaceByStoragePath` returned: direct access needs a fixed key that is also the FULL
+path -/
 theorem direct_cases {known : List Path} {path : Path} {w : Bool} (h : storageByPath known path = .direct w) :
-    (nsByStoragePath known path).2 ∈ fixedKeys ∧
+    (nsByStoragePath known path).2 ∈ fixedKeys ∧ (nsByStoragePath known path).2 = path ∧
     (((nsByStoragePath known path).1 = .root ∧ w = true) ∨ ((nsByStoragePath known path).1 = .unknown ∧ w = false)) := by
   unfold storageByPath at h
   generalize nsByStoragePath known path = r at h ⊢
@@ -54,19 +55,30 @@ theorem direct_cases {known : List Path} {path : Path} {w : Bool} (h : storageBy
       split at h
       · rename_i hs
         cases h
-        refine ⟨?_, Or.inl ⟨rfl, rfl⟩⟩
-        rcases hs with e | e <;> simp [fixedKeys, e]
+        refine ⟨?_, hs.2, Or.inl ⟨rfl, rfl⟩⟩
+        rcases hs.1 with e | e <;> simp [fixedKeys, e]
       · cases h
     | unknown =>
       simp only at h
       split at h
       · rename_i hs
         cases h
-        refine ⟨?_, Or.inr ⟨rfl, rfl⟩⟩
-        rcases hs with e | e <;> simp [fixedKeys, e]
+        refine ⟨?_, hs.2, Or.inr ⟨rfl, rfl⟩⟩
+        rcases hs.1 with e | e <;> simp [fixedKeys, e]
       · cases h
     | child u =>
       simp only at h
       split at h <;> cases h
+
+/-- a path from which `NamespaceByStoragePath` stripped `namespaces/<uuid>/` is strictly longer than the remainder -/
+theorem stripped_ne {known : List Path} {path rest uuid r0 : Path} (hp : cutPrefix nsPrefix path = some r0)
+    (hc : cutSlash r0 = some (uuid, rest)) : rest ≠ path := by
+  intro e
+  have h1 := cutPrefix_eq hp
+  have h2 := (cutSlash_eq hc).1
+  have : path.length = (nsPrefix ++ (uuid ++ '/' :: rest)).length := by rw [h1, h2]
+  rw [e] at this
+  simp [nsPrefix] at this
+  omega
 
 end Obao.RawAccess
